@@ -81,6 +81,7 @@ def margins_stream(res, rng, tier, GroupBy):
         keycols, kinds = gen_keys(rng, n, nkeys)
         vals = [rng.choice(VALS) for _ in range(n)]
         agg = rng.choice(AGGS)
+        warm_ = rng.choice([None, None, None] + api.WARM_OPS)
         mask = None if rng.random() < 0.6 else ("b", [rng.random() < 0.7 for _ in range(n)])
         if nkeys == 1 or rng.random() < 0.5:
             margins, levels = True, list(range(nkeys))
@@ -100,6 +101,7 @@ def margins_stream(res, rng, tier, GroupBy):
         try:
             keys = [api.make_key(col, kind, "numpy") for col, kind in zip(keycols, kinds)]
             gb = GroupBy(keys if nkeys > 1 else keys[0])
+            api.warm(gb, warm_, n)          # the grouping may have been used before
             m = None if mask is None else np.array(mask[1], dtype=bool)
             v = api.make_values(vals, "f8")
             out = gb.size(mask=m, margins=margins) if agg == "size" else getattr(gb, agg)(v, mask=m, margins=margins)
